@@ -1,6 +1,7 @@
 import AlgoVerif.Proofs.C05Binary
 import AlgoVerif.Proofs.C05BinomialOrder
 import AlgoVerif.Proofs.C05FibFull
+import AlgoVerif.Proofs.C05Gen
 /-!
 # C05 — indexed heaps keep index, key and value consistent (property theorems)
 
@@ -227,3 +228,52 @@ theorem C05_invalid_index_rejected_ifibonacci {K V : Type} (cmp : K → K → In
   · unfold IFib.peekIndex; rw [if_pos hc]
 
 example : ∃ (h : IFib Int Nat) (i : Int), i < 0 ∨ i ≥ (h.nodes.size : Int) := ⟨IFib.new 3, 3, by decide⟩
+
+/-! ## the same statements about the definitions GENERATED from `heap/indexed_binary.go`
+
+`AlgoVerif.Generated.IHeap.*` (file `Generated/C05Gen.lean`) is produced from `/repo/heap/indexed_binary.go` by the
+translator `/verif/extract/go2lean` on every run of this check (`bin/pre-C05`; scheme, subset — in particular the
+ownership rule for the `*generic.KeyValue` records that `ChangeKey` assigns through — and what is trusted: header of
+`extract/go2lean/main.go`).  `Gen.ofM cmp eq h` reads a state of the hand Model as the generated structure,
+`Gen.genStep F` answers one call of the interface with the generated methods (fuel `F` for `promote` / `demote`),
+`Gen.genRun` a history from `NewIndexedBinary`.  An edit of the Go source that changes what a method computes changes
+the generated file and these stop checking. -/
+
+open AlgoVerif.Generated.IHeap AlgoVerif.C05.Gen
+
+/-- **one call, every state.**  For every state `h` of the hand Model (no invariant), every comparator (no law), every
+call and every fuel that covers the hand Model's own (`h.n + 2` and every stored position `+ 1`): the hand Model's
+step is `diverge` (fuel), `panic` (it stops earlier than the code in states `C05_ibinary` proves unreachable), or the
+generated methods compute exactly the same result and the same next state. -/
+theorem C05_generated_ibinary_step_refines {K V : Type} [Inhabited K] [Inhabited V] (cmp : K → K → Int)
+    (eq : V → V → Bool) (F : Nat) (h : IBinary K V) (hc : Covers F h) (op : Op K V) :
+    IBinary.step cmp eq h op = .diverge ∨ IBinary.step cmp eq h op = .panic ∨
+      (IBinary.step cmp eq h op).map (fun r => (ofM cmp eq r.1, r.2)) = genStep F (ofM cmp eq h) op := by
+  rcases step_le cmp eq F h hc op with e | e | e
+  · left; cases hs : IBinary.step cmp eq h op <;> simp_all [Outcome.map]
+  · right; left; cases hs : IBinary.step cmp eq h op <;> simp_all [Outcome.map]
+  · right; right; exact e
+
+/-- **every history**: under a lawful comparator the generated methods answer, call by call, exactly what the hand
+Model answers (any fuel `≥ cap + 2`) -/
+theorem C05_generated_ibinary_run_refines {K V : Type} [Inhabited K] [Inhabited V] (cmp : K → K → Int)
+    (hc : LawfulCmp cmp) (eq : V → V → Bool) (cap : Nat) (F : Nat) (hF : cap + 2 ≤ F) (ops : List (Op K V)) :
+    genRun F cmp eq cap ops = IBinary.run cmp eq cap ops := genRun_eq hc eq cap F hF ops
+
+/-- **Indexed binary heap, full strength, about the generated definitions**: the statement of `C05_ibinary` -/
+theorem C05_generated_ibinary {K V : Type} [Inhabited K] [Inhabited V] (cmp : K → K → Int) (hc : LawfulCmp cmp)
+    (eq : V → V → Bool) (cap : Nat) (F : Nat) (hF : cap + 2 ≤ F) (ops : List (Op K V)) :
+    Admitted cmp eq cap Map.empty ops (genRun F cmp eq cap ops) := by
+  rw [C05_generated_ibinary_run_refines cmp hc eq cap F hF ops]
+  exact C05_ibinary cmp hc eq cap ops
+
+/-- the history of the example after `C05_ibinary_invariant`, run on the generated definitions -/
+example :
+    genRun 8 C05.cmpInt (fun (a b : Nat) => a == b) 6
+      [.insert 6 1 0, .insert (-1) 1 0, .insert 5 42 7, .containsKey 42, .insert 2 10 8, .insert 0 50 9,
+       .insert 5 1 1, .changeKey 5 60, .peek, .deleteIndex 0, .changeKey 3 1, .delete, .delete, .delete, .size]
+    = [.ok (.bool false), .ok (.bool false), .ok (.bool true), .ok (.bool true), .ok (.bool true),
+       .ok (.bool true), .ok (.bool false), .ok (.bool true), .ok (.ikv (some (2, 10, 8))),
+       .ok (.kv (some (50, 9))), .ok (.bool false), .ok (.ikv (some (2, 10, 8))),
+       .ok (.ikv (some (5, 60, 7))), .ok (.ikv none), .ok (.int 0)] := by
+  decide
